@@ -84,6 +84,20 @@ func genBusProgram(rng *rand.Rand, k busKnobs) *busProgram {
 		}
 		p.optArgs = append(p.optArgs, arg)
 	}
+	// the panic handler's body: publishes (values from 50: no retry of a retry) or registry calls
+	for _, o := range opts {
+		if o == "panicHandler" && rng.Intn(2) == 0 {
+			var as []action
+			for i := 1 + rng.Intn(2); i > 0; i-- {
+				if rng.Intn(3) != 0 {
+					as = append(as, action{kind: "pub", t: rng.Intn(k.ntypes), v: panicRetryBelow + rng.Intn(10)})
+				} else {
+					as = append(as, simpleAct())
+				}
+			}
+			p.bodies[panicBody] = as
+		}
+	}
 	// filters
 	nf := 3
 	for f := 0; f < nf; f++ {
